@@ -28,6 +28,7 @@ PMOD = "src/psbt/mod.rs"
 DROPPED = [
     "c14_finalize: `impl PsbtExt for Psbt` methods are emitted in an inherent `impl Psbt` block (Verus allows no `requires` on trait-impl methods); paths `finalizer::` / `super::` are flattened into the single module (R7)",
     "c14_finalize: finalize_input_helper (descriptor inference, satisfier, interpreter check; secp FFI) and sanity_check are NOT verified: replaced by arbitrary deterministic functions of (psbt, index, allow_mall) resp. (psbt)",
+    "c14_finalize: every other function of finalizer.rs (construct_tap_witness, get_scriptpubkey, get_utxo, prevouts, get_descriptor, interpreter_check, interpreter_inp_check) is a signature-only stub with an arbitrary result, so that code motion between them and finalize_input is judged by the contracts instead of breaking the weave; in those stub signatures `&Script` is written `&ScriptBuf` and the `Borrow<TxOut>` bound is dropped (R7)",
     "c14_finalize: psbt::Input / Psbt field types (maps, scripts, keys, transactions) are opaque values; `Input::default()` is assumed to be all-None / all-empty (derived Default)",
 ]
 
@@ -83,6 +84,30 @@ use secp256k1::Secp256k1;
 
 pub struct ScriptBuf { pub opaque: u64 }
 pub struct Witness { pub opaque: u64 }
+// types that only occur in the signatures of finalizer.rs functions consumed as arbitrary-result stubs (so that code
+// motion between those functions and finalize_input still type-checks, and is then judged by the contracts)
+pub struct Script { pub opaque: u64 }
+pub struct PsbtInputSatisfier { pub opaque: u64 }
+pub struct Descriptor<Pk> { pub opaque: u64, pub phantom: PhantomData<Pk> }
+pub enum Prevouts<'u, T: 'u> { All(&'u [T]), One(usize, T) }
+pub mod sighash { pub use crate::Prevouts; }
+pub mod bitcoin { pub use crate::{PublicKey, Script, ScriptBuf, Transaction, TxOut, Witness}; pub use crate::sighash; }
+impl Clone for ScriptBuf {
+    #[verifier::external_body]
+    fn clone(&self) -> (r: ScriptBuf) ensures r == *self { unimplemented!() }
+}
+impl Clone for Witness {
+    #[verifier::external_body]
+    fn clone(&self) -> (r: Witness) ensures r == *self { unimplemented!() }
+}
+impl Default for ScriptBuf {
+    #[verifier::external_body]
+    fn default() -> (r: ScriptBuf) ensures r.spec_is_empty() { unimplemented!() }
+}
+impl Default for Witness {
+    #[verifier::external_body]
+    fn default() -> (r: Witness) ensures r.spec_is_empty() { unimplemented!() }
+}
 impl ScriptBuf {
     pub uninterp spec fn spec_is_empty(&self) -> bool;
     #[verifier::external_body]
@@ -219,6 +244,9 @@ def dep_repo(repo):
     return Repo(c[-1]), os.path.basename(c[-1])[len("bitcoin-"):]
 
 
+# R7 on stub signatures only: trait-object-ish bounds / unsized borrows of the bitcoin crate that the stand-in types do not model
+STUB_SIG = [sub("R7", r",\s*T:\s*Borrow<TxOut>", ", T", required=False), sub("R7", r"&Script\b", "&ScriptBuf", required=False),
+            sub("R7", r"&PsbtInputSatisfier\b", "&PsbtInputSatisfier", required=False)]
 STRIP_ATTRS = sub("R1-attrs", r"(?m)^\s*#\[(?:derive|cfg_attr)\(.*\)\]\n", "", required=False)
 
 FIN_INPUT_CONTRACT = Contract(
@@ -350,6 +378,16 @@ def build(repo):
         requires=["(index as int) < psbt.inputs@.len()"],
         ensures=[Clause("spec", (), "r == helper_spec(*psbt, index, allow_mall)")]))
     vf.fn(PMOD, "fn:sanity_check", assumed=True, contract=Contract(ensures=[Clause("spec", (), "r == sanity_spec(*psbt)")]))
+
+    # every other function of finalizer.rs: signature-only stub with an ARBITRARY result (no contract).  They all take
+    # `&Psbt` (or no PSBT at all), so they cannot mutate; if code moves between them and the verified functions the
+    # woven file still type-checks and the contracts decide (an `Err` after the input was rewritten breaks atomicity)
+    verified = ("finalize_input", "finalize_input_helper", "finalize_helper", "finalize", "finalize_mall")
+    others = [it["name"] for it in repo.file(FIN).items() if it.get("kind") == "fn" and it["name"] not in verified]
+    for name in others:
+        vf.fn(FIN, "fn:%s" % name, assumed=True, rewrites=[lit("R7", "super::Error", "Error", required=False)] + STUB_SIG)
+    vf.trust("arbitrary-result stubs of the remaining finalizer.rs functions (%s)" % ", ".join(others),
+             "external_body without any ensures: nothing is assumed about their result; `&Psbt` parameters cannot be mutated")
 
     vf.fn(FIN, "fn:finalize_input", props=PROPS, rewrites=R7, contract=FIN_INPUT_CONTRACT)
     # reachability canary for the only precondition (the framework cannot generate one for `&mut` parameters); must FAIL
